@@ -2,7 +2,7 @@
 
 use super::Mesh;
 use crate::{Point3, Result};
-use std::collections::{HashMap, HashSet};
+use std::collections::HashMap;
 
 pub struct MeshEdges<'a> {
     /// The original mesh associated with the edge structure
@@ -135,27 +135,25 @@ pub fn unique_edges(all_edges: &[[u32; 2]]) -> Vec<([u32; 2], usize)> {
     unique_count
 }
 
-fn boundary_loops(boundary_map: HashMap<u32, u32>) -> Vec<Vec<u32>> {
+fn boundary_loops(mut boundary_map: HashMap<u32, u32>) -> Vec<Vec<u32>> {
     let mut all_loops = Vec::new();
-    let mut working = Vec::new();
-    let mut queue: HashSet<u32> = boundary_map.keys().copied().collect();
 
-    while !queue.is_empty() {
-        if let Some(last_id) = working.last() {
-            let next_id = boundary_map[last_id];
-            queue.remove(&next_id);
-
-            if *working.first().unwrap() == next_id {
-                working.reverse();
-                all_loops.push(working);
-                working = Vec::new();
-            } else {
-                working.push(next_id);
+    // Every step of a walk consumes the boundary edge it follows, so a walk ends when it returns
+    // to its start or when it reaches a vertex with no unused outgoing boundary edge (a vertex
+    // where two boundaries touch), and the map shrinks with every step.
+    while let Some(&start_id) = boundary_map.keys().next() {
+        let mut working = vec![start_id];
+        let mut next = boundary_map.remove(&start_id);
+        while let Some(next_id) = next {
+            if next_id == start_id {
+                break;
             }
-        } else {
-            let start_id = *queue.iter().next().unwrap();
-            working.push(start_id);
+            working.push(next_id);
+            next = boundary_map.remove(&next_id);
         }
+
+        working.reverse();
+        all_loops.push(working);
     }
 
     all_loops
